@@ -27,7 +27,8 @@ import types
 
 from vlib import core, corr
 
-DEPENDS = ["ConnLimits", "ConnLimitsP", "ConnLimitsDeliv", "StreamRecv", "StreamRecvP", "RangeSet", "C07Consts", "Base", "Tok", "C07"]
+GENERATORS = ["c07_consts"]
+DEPENDS = ["ConnLimits", "ConnLimitsCut", "ConnLimitsP", "ConnLimitsMsd", "ConnLimitsCutP", "ConnLimitsDeliv", "StreamRecv", "StreamRecvP", "RangeSet", "C07Consts", "Base", "Tok", "C07"]
 TRUSTED_BASE = [
     "extraction (ExtrOcamlBasic only) + coq/extract/driver.ml for running coq/model/ConnLimits.v",
     "harness/sim (Pair, wire observer, peer puppet: packet protection via aioquic's own CryptoContext; independent frame builders/parser)",
@@ -156,6 +157,9 @@ class Runner:
         self.lost_done = set()     # packets the puppet decided never to acknowledge
         self.acked_done = set()    # packets the puppet has acknowledged
         self.lost_seen = set()     # limit packets whose loss has been projected to the model trace
+        self.congested = False     # after a bulk step ("K"): the subject's congestion window is exhausted, the builder may
+                                   # refuse frames; every write pass is projected as WriteCut (model/ConnLimitsCut.v)
+        self.bulk_bytes = 0
 
     # -- helpers -----------------------------------------------------------------------
     def _remote_params(self):
@@ -168,8 +172,29 @@ class Runner:
         raise RuntimeError("peer qlog has no remote transport parameters")
 
     def _fail(self, what, **sig):
+        if self.congested:
+            sig["congested"] = True
         if self.bad is None:
             self.bad = (what, sig)
+
+    def _live_streams(self):
+        """stream ids whose state the subject still holds after a write pass (a private read, congested runs only, used
+        for the projection only): the model discards the finished streams that are NOT in this list -- the loop that
+        discards them also writes STREAM frames and can be stopped by the builder"""
+        try:
+            return [int(k) for k in self.sub.conn._streams.keys()]
+        except Exception:
+            return []
+
+    def _pending_raise(self):
+        """evidence only: is some limit raised but not advertised (value != sent) right now?"""
+        try:
+            c = self.sub.conn
+            ls = [c._local_max_data, c._local_max_streams_bidi, c._local_max_streams_uni]
+            return any(l.value != l.sent for l in ls) or any(
+                st.max_stream_data_local != st.max_stream_data_local_sent for st in c._streams.values())
+        except Exception:
+            return False
 
     def _adv_msd(self, sid):
         if sid in self.adv_msd:
@@ -289,7 +314,15 @@ class Runner:
         if toks:
             self.stats["loss_by_timer"] += 1
         self.min_in += toks
-        self.min_in.append(4)
+        if self.congested:
+            # budget = the modelled frames this step's datagrams_to_send() calls put on the wire (as in C18)
+            keep = self._live_streams()
+            self.min_in += [12, len(frames), len(keep)] + keep
+            self.stats["cut_passes"] += 1
+            if self._pending_raise():
+                self.stats["cut_passes_with_unadvertised_raise"] += 1
+        else:
+            self.min_in.append(4)
         if self.closed is not None:
             self.mout += [3, self.closed[0], self.closed[1]]
             raise Closed()
@@ -325,7 +358,8 @@ class Runner:
             return
         g = reachable_bytes(self.sub.conn) - self.baseline
         self.max_growth = max(self.max_growth, g)
-        allow = ((self.adv_data if self.sent_stream else 0) + (self.max_pending_crypto if self.sent_crypto else 0) + SLACK)
+        allow = ((self.adv_data if self.sent_stream else 0) + (self.max_pending_crypto if self.sent_crypto else 0) + SLACK
+                 + self.bulk_bytes)      # the subject's own unacknowledged bulk data sits in its send buffer
         if g > allow:
             self._fail("bytes reachable from the connection grew by %d, more than %s%sslack %d"
                        % (g, "advertised max_data %d + " % self.adv_data if self.sent_stream else "",
@@ -576,6 +610,28 @@ class Runner:
                     self.min_in += [3, op[1]]
                 elif k == "L":
                     self._lose()
+                elif k == "K":
+                    # bulk: the application queues op[1] bytes on a new stream of its own; the puppet acknowledges nothing,
+                    # so the congestion window fills and the builder starts refusing in-flight frames
+                    sid = self.sub.get_next_available_stream_id()
+                    self.sub.send_stream_data(sid, bytes(op[1]), False)
+                    self.local_open.add(sid)
+                    self.min_in += [3, sid]
+                    self.bulk_bytes += op[1]
+                    self.congested = True
+                    # let the window fill, then wait for the first PTO probe to go out: the next one is due twice as late,
+                    # so the steps that follow see write passes with an exhausted window and no probe
+                    def quiet():
+                        n = len(self.subject_pns)
+                        self._write()
+                        return len(self.subject_pns) == n
+                    phase, guard = 0, 0
+                    while phase < 3 and guard < 14:
+                        guard += 1
+                        q = quiet()
+                        if (phase in (0, 2) and q) or (phase == 1 and not q):
+                            phase += 1
+                    self.stats["cut_fill_steps"] += guard
                 elif k == "D":
                     self._deliver(op[1], op[2], op[3], op[4], op[5] if len(op) > 5 else -1)
                 elif k == "Pa":    # PATH_CHALLENGE frames from another source address (a path the model does not have)
@@ -599,6 +655,7 @@ class Runner:
 
 _CACHE = collections.OrderedDict()
 _DELIVERY = collections.Counter()     # measured over all distinct cases of this run (goes into the evidence)
+_CUT = collections.Counter()
 _DELIVERY_KEYS = ("lost_limit_packets", "lost_limit_frames", "loss_at_ack", "loss_not_at_ack", "loss_by_timer", "acked_limit_packets",
                   "ack_gap_>=3", "ack_gap_<3", "deliver_no_limit_packet", "deliver_no_later_packet")
 
@@ -614,6 +671,8 @@ def _run_case(case):
         for k, v in r.stats.items():
             if k in _DELIVERY_KEYS or k.startswith("deliver_"):
                 _DELIVERY[k] += v
+            if k.startswith("cut_"):
+                _CUT[k] += v
         if len(_CACHE) > 4096:
             _CACHE.popitem(last=False)
         r = r_small
@@ -957,6 +1016,43 @@ def pick_delivery(cases, thorough):
     return out
 
 
+def gen_cut():
+    """Write passes cut short by QuicPacketBuilderStop: after a bulk step the subject's congestion window is exhausted and the
+    builder refuses MAX_DATA / MAX_STREAM_DATA / MAX_STREAMS frames until a PTO probe (or an ACK) makes room.
+    -> (cases, candidates): `cases` keep the peer within everything it saw on the wire, or go beyond the raised value as well
+    (verdicts are unambiguous); `candidates` probe the window between the silently raised value and the advertised one."""
+    cases, cand = [], []
+    tail = [["W"], ["W"], ["W"], ["W"], ["A"], ["W"]]      # PTO probes / an ACK let the refused frames out
+    for subject in ("server", "client"):
+        pb, pu, ob, ou = _peer_sids(subject)
+        c = lambda msd, md, ops, kind: _case(subject, msd, md, [["K", 60000]] + ops, kind=kind)
+        # connection level: msd 3000, md 2000; 1001 bytes make used*2 > value; the MAX_DATA 4000 frame is refused
+        for e, lst in ((1999, cases), (2000, cases), (2001, cand), (3000, cand), (4001 - 1000, cand)):
+            lst.append(c(3000, 2000, [["S", pb, 0, 1001, 1, 0, 0], ["S", pb, e - 10, 10, 2, 0, 1]] + tail, "cut-max-data"))
+        cases.append(c(3000, 2000, [["S", pb, 0, 1001, 1, 0, 0], ["S", pu, 2995, 5, 2, 0, 1], ["S", pb + 4, 5, 1, 2, 0, 1]] + tail,
+                       "cut-max-data"))                                                           # 4001 > raised value as well
+        cand.append(c(3000, 2000, [["S", pb, 0, 1001, 1, 0, 0], ["R", pu, 1500]] + tail, "cut-max-data"))
+        cases.append(c(3000, 2000, [["S", pb, 0, 1001, 1, 0, 0], ["W"], ["W"], ["W"], ["W"], ["W"], ["S", pb, 3990, 10, 2, 0, 1],
+                                    ["S", pu, 0, 1, 2, 0, 0], ["S", pu, 5, 1, 2, 0, 1]], "cut-max-data"))  # after the probe: 4000 advertised
+        # per stream: msd 1000, md 4000; 600 bytes; MAX_STREAM_DATA 2000 refused
+        for e, lst in ((999, cases), (1000, cases), (1001, cand), (2000, cand), (2001, cases)):
+            lst.append(c(1000, 4000, [["S", pb, 0, 600, 1, 0, 0], ["S", pb, e - 10, 10, 2, 0, 1]] + tail, "cut-max-stream-data"))
+        cases.append(c(1000, 4000, [["S", pb, 0, 600, 1, 0, 0], ["S", pb + 4, 390, 10, 2, 0, 1], ["S", pb + 4, 1000, 1, 2, 0, 1]] + tail,
+                       "cut-max-stream-data"))                                                    # another stream keeps 1000
+        cand.append(c(1000, 4000, [["S", pb, 0, 600, 1, 0, 0], ["R", pb, 1500]] + tail, "cut-max-stream-data"))
+        # stream count: the 65th stream; MAX_STREAMS 256 refused
+        for base in (pb, pu):
+            for cnt, lst in ((128, cases), (129, cand), (256, cand), (257, cases)):
+                lst.append(c(1000, 4000, [["S", base + 4 * 64, 0, 1, 1, 0, 0], ["S", base + 4 * (cnt - 1), 0, 1, 2, 0, 0]] + tail,
+                             "cut-max-streams"))
+        # PATH_CHALLENGE / retire bursts under an exhausted window: PATH_RESPONSE and RETIRE_CONNECTION_ID wait for room as well
+        cases.append(c(1000, 4000, [["B", [["P", 100 + i] for i in range(5)]], ["S", pb, 0, 600, 1, 0, 0]] + tail, "cut-queues"))
+        cases.append(c(1000, 4000, [["N", 8, 3], ["S", pb, 0, 600, 1, 0, 0]] + tail, "cut-queues"))
+        # a finished stream under an exhausted window (discarding happens in the loop that writes STREAM frames)
+        cases.append(c(1000, 4000, [["S", pu, 0, 10, 1, 1, 0], ["S", pu, 0, 11, 2, 0, 0], ["S", pb, 0, 600, 1, 0, 0]] + tail, "cut-discard"))
+    return cases, cand
+
+
 def gen_findings(thorough=False):
     """Inputs on which the unchanged tree violates the property (documented in docs/C07.md)."""
     cases = []
@@ -991,7 +1087,7 @@ def _opname(o):
 
 def _nontrivial(c, out):
     # at least one frame was judged on the real connection and something observable happened
-    return len(out) > 0 and any(o[0] in ("S", "R", "B", "C", "P", "N", "T", "D") for o in c["ops"])
+    return len(out) > 0 and any(o[0] in ("S", "R", "B", "C", "P", "N", "T", "D", "K") for o in c["ops"])
 
 
 def _simplify(op):
@@ -1012,14 +1108,47 @@ def _simplify(op):
         yield ["S", op[1], op[2] + op[3] - 1, 1, op[4], op[5], 1]
 
 
+CANDIDATE_SIG = {"oracle": "over_limit", "congested": True, "got": None}
+
+
+def run_candidates(ctx, s, cases):
+    """Inputs that probe the window between a silently raised limit and the advertised one (candidate finding F-C07-4).
+    When known_findings.json lists the signature (open) they are ordinary cases: the oracle's verdict is a known finding.
+    Until then the verdicts are MEASURED and REPORTED in the evidence (coverage.candidate_findings) and in docs/C07.md, but
+    do not fail the check; a model/implementation disagreement on them always does."""
+    listed = any(kf.get("property") == "C07" and kf.get("status") == "open" and core._sig_match(kf.get("match", {}), CANDIDATE_SIG)
+                 for kf in getattr(ctx, "known", []))
+    if listed:
+        s.run(cases)
+        return {"listed_in_known_findings": True, "cases": len(cases)}
+    quiet, hits, other = [], [], []
+    for c in cases:
+        d, e, g = s.disagree(c)
+        if d:
+            quiet.append(c)          # correspondence failure: goes through the normal path below
+            continue
+        bad = oracle(c)
+        if bad is None:
+            continue
+        what, sig = bad
+        if all(sig.get(k) == v for k, v in CANDIDATE_SIG.items()):
+            hits.append({"what": what, "signature": sig, "case": c})
+        else:
+            other.append(c)
+    if quiet or other:
+        s.run(quiet + other)
+    return {"listed_in_known_findings": False, "cases": len(cases), "oracle_over_limit_stayed_open": len(hits),
+            "signature": CANDIDATE_SIG, "example": hits[0] if hits else None}
+
+
 def suite(ctx):
-    return corr.Suite(ctx, "connlimits", "exec_connlimits", encode, impl, oracle, _ops, _rebuild,
+    return corr.Suite(ctx, "connlimits", "exec_connlimits_cut", encode, impl, oracle, _ops, _rebuild,
                       nontrivial=_nontrivial, opname=_opname, simplify=_simplify)
 
 
 def suite_long(ctx):
     """same tie, for the long repetition cases: no shrinking (one evaluation costs a second)"""
-    return corr.Suite(ctx, "connlimits-long", "exec_connlimits", encode, impl, oracle, None, None,
+    return corr.Suite(ctx, "connlimits-long", "exec_connlimits_cut", encode, impl, oracle, None, None,
                       nontrivial=_nontrivial, opname=_opname)
 
 
@@ -1050,6 +1179,14 @@ def run(ctx):
         s.run(fam)
     s.run(gen_random(rng, ctx.n(120, 3000)))
     s.run(gen_random(rng, ctx.n(150, 3000), deliveries=True))
+    # write passes cut short by QuicPacketBuilderStop (docs/C07.md "Cut write passes")
+    cut_cases, cut_cand = gen_cut()
+    cfams = collections.OrderedDict()
+    for c in cut_cases:
+        cfams.setdefault(c["kind"], []).append(c)
+    for fam in cfams.values():
+        s.run(fam)
+    candidates = run_candidates(ctx, s, cut_cand)
     found = gen_findings(ctx.thorough)
     for kind in ("finding-reset-double-count",):
         s.run([c for c in found if c["kind"] == kind])
@@ -1063,7 +1200,8 @@ def run(ctx):
         "the boundary old..new limit x order of the revealing ACK and the frames, random mostly-within-limit histories interleaved with the "
         "subject's own limit raises and such delivery outcomes); distinct = distinct projected "
         "op trace, non-trivial = at least one peer frame processed and an observable produced",
-        {"delivery_outcomes": dict(sorted(_DELIVERY.items()))})
+        {"delivery_outcomes": dict(sorted(_DELIVERY.items())), "cut_passes": dict(sorted(_CUT.items())),
+         "candidate_findings": candidates})
 
 
 def replay(ctx, rep):
